@@ -17,6 +17,14 @@ func c11Tracks(layout string) []vfyh.Track {
 		return []vfyh.Track{{Media: "video", Timescale: 1000, Chunks: [][]int{{1, 2}, {1, 1}, {2}}, Durs: []uint32{40}, Sync: []uint32{1, 3, 5}}}
 	case "vc":
 		return []vfyh.Track{{Media: "video", Timescale: 12800, Chunks: [][]int{{1}, {2}, {1}, {1}, {1}}, Durs: []uint32{512}, Ctos: []int32{1024, 0, 512}, Sync: []uint32{1, 4}}}
+	case "v1":
+		// flat storage: one chunk holds the whole track, every segment but the last ends inside it
+		return []vfyh.Track{{Media: "video", Timescale: 1000, Chunks: [][]int{{1, 2, 1, 1, 2}}, Durs: []uint32{40}, Sync: []uint32{1, 3, 5}}}
+	case "va1":
+		return []vfyh.Track{
+			{Media: "video", Timescale: 1000, Chunks: [][]int{{2, 1, 1}, {1, 1}}, Durs: []uint32{40}, Sync: []uint32{1, 3, 5}},
+			{Media: "audio", Timescale: 48000, Chunks: [][]int{{1, 1, 1, 1, 1, 1, 1, 1, 1, 1, 1, 1}}, Durs: []uint32{1024}},
+		}
 	case "vr":
 		// durations in runs (stts with several entries): 40 40 40 33 33 50
 		return []vfyh.Track{{Media: "video", Timescale: 1000, Chunks: [][]int{{1, 2}, {1, 1}, {2}}, Durs: []uint32{40, 40, 40, 33, 33, 50}, Sync: []uint32{1, 3, 5}}}
